@@ -478,6 +478,67 @@ def d_arrx1(E, fv, st, node, prog):
     return SArrVal("f8", [z3.IntVal(0)], {"v": z3.Lambda([c], f.v), "nan": z3.K(I, FALSE), "ninf": z3.Lambda([c], f.ninf)})
 
 
+def d_arrxn(E, fv, st, node, prog):
+    """arrxn(lambda r, j, a: e): the N-D float array value with elements e (value, NaN flag and -inf flag of e)"""
+    lam = node.args[0]
+    names = [a.arg for a in lam.args.args]
+    consts = [z3.Int("arr!%s" % n) for n in names]
+    s = st.fork()
+    s.assumes = st.assumes
+    for n, c in zip(names, consts):
+        s.env[n] = SInt(c)
+    f = fv.to_float(fv.ev(lam.body, s, False))
+    comps = {}
+    for cn, t in (("v", f.v), ("nan", f.nan), ("ninf", f.ninf)):
+        for c in reversed(consts):
+            t = z3.Lambda([c], t)
+        comps[cn] = t
+    return SArrVal("f8", [z3.IntVal(0)] * len(names), comps)
+
+
+def np_expand_dims(E, fv, st, node, prog):
+    """np.expand_dims(a, axis) for axis in {1, -1}: the same elements with a length-one axis inserted
+    (modelled as a read-only copy)"""
+    a, ax = _args(fv, st, node, prog, 2)
+    USED.add("np.expand_dims(a, axis): same elements, one more axis of length one (read-only copy)")
+    if not isinstance(a, SArr):
+        _err("expand_dims of non-array")
+    shp = list(fv.arr_shape(st, a))
+    axv = z3.simplify(fv.as_int(ax).e)
+    if not z3.is_int_value(axv):
+        _err("expand_dims with symbolic axis")
+    axis = axv.as_long()
+    if axis < 0:
+        axis += len(shp) + 1
+    if not (0 <= axis <= len(shp)):
+        _err("expand_dims axis out of range")
+    o = st.heap[a.loc]
+    ks = [z3.Int("xd!k%d" % d) for d in range(len(shp) + 1)]
+    src_idx = [k for d, k in enumerate(ks) if d != axis]
+    comps = {}
+    for c, t in o.comps.items():
+        body = nested_select(nested_select(t, a.prefix), src_idx)
+        for k in reversed(ks):
+            body = z3.Lambda([k], body)
+        comps[c] = body
+    new_shape = shp[:axis] + [z3.IntVal(1)] + shp[axis:]
+    r = fv.new_loc(st, o.dtype, new_shape, comps, name="xdims")
+    fv.view_copies.add(r.loc)
+    fv.view_src[r.loc] = (a.loc, o)
+    return r
+
+
+def d_dtype_max(E, fv, st, node, prog):
+    """dtype_max(a): the largest value the integer array a can hold (symbolic for iN)"""
+    (v,) = _args(fv, st, node, False, 1)
+    if not isinstance(v, SArr):
+        _err("dtype_max expects a program array")
+    rng = DTYPES.get(st.heap[v.loc].dtype)
+    if rng is None:
+        _err("dtype_max of a non-integer array")
+    return SInt(rng[1] if z3.is_expr(rng[1]) else z3.IntVal(rng[1]))
+
+
 def d_named(E, fv, st, node, prog):
     """named(a): the array value a under fresh constant names (a == the definition is assumed), so that
     spec applications on it contain no lambda terms and can serve as quantifier patterns"""
@@ -595,6 +656,8 @@ BUILTINS = {
     "arrf1": d_arrf1,
     "arrx1": d_arrx1,
     "named": d_named,
+    "dtype_max": d_dtype_max,
+    "arrxn": d_arrxn,
     "exp": d_xexp,
     "lgamma": _uf1("lgamma", LGAMMA),
 }
@@ -1056,6 +1119,7 @@ EXTERNALS = {
     "numpy.sum": np_sum,
     "numpy.random.shuffle": np_random_shuffle,
     "numpy.sort": np_sort,
+    "numpy.expand_dims": np_expand_dims,
     "numpy.random.rand": np_random_rand,
     "numpy.random.random": np_random_rand,
     "numpy.random.seed": np_random_seed,
